@@ -4884,9 +4884,7 @@ where
           let _ = write!(self.state.data_location, "/{}", value);
 
           None
-        } else if let Some(Occur::Optional { .. }) | Some(Occur::ZeroOrMore { .. }) =
-          &self.state.occurrence.take()
-        {
+        } else if occurrence_admits_absence(self.state.occurrence.take().as_ref()) {
           self.state.advance_to_next_entry = true;
           None
         } else if let Some(Occur::Exact {
@@ -4914,9 +4912,7 @@ where
           self.state.data_location.push_str(&format!("/{}", value));
 
           None
-        } else if let Some(Occur::Optional {}) | Some(Occur::ZeroOrMore {}) =
-          &self.state.occurrence.take()
-        {
+        } else if occurrence_admits_absence(self.state.occurrence.take().as_ref()) {
           self.state.advance_to_next_entry = true;
           None
         } else if let Some(Token::NE) | Some(Token::DEFAULT) = &self.state.ctrl {
